@@ -78,12 +78,16 @@ def rawFirst (bs : Bytes) : Option (Bytes × Cbor × Bytes) :=
     whose built-in-tag validation by the library is not modelled -/
 def eOod : ErrMask := 4096
 
+/-- a key or value carrying a CBOR tag (outside the modelled domain) -/
+def kvTagged (kt : Cbor) (r1 : Bytes) : Bool :=
+  Cbor.hasTag kt || (match rawFirst r1 with | some (_, vt, _) => Cbor.hasTag vt | none => false)
+
 /-- `unmarshalKeyValue`: an integer key (Go `int`), any value kept raw, then `Add` -/
 def unmarshalKeyValue (rest : Bytes) (m : OMap) : Outcome (Bytes × OMap) :=
   match rawFirst rest with
   | none => .err eOther
   | some (_, kt, r1) =>
-    if Cbor.hasTag kt || (match rawFirst r1 with | some (_, vt, _) => Cbor.hasTag vt | none => false) then .err eOod else
+    if kvTagged kt r1 then .err eOod else
     match decIntRange (-9223372036854775808) 9223372036854775807 kt with
     | .ok (some k) =>
       (match rawFirst r1 with
